@@ -392,8 +392,21 @@ def main():
         "ignore_billing_period_gap_for_day_count applies (the option's documented meaning)",
         "correspondence is sampled: agreement is established on the cases run",
     ]
-    run.cov["trusted_base"] += ["harness/c20.py (generator, adapter, canonicalisation)", "pandas semantics re-specified in Model/Windows.v"]
-    run.check_proofs("Properties/C20.v", ["Proofs/WindowsProofs.v"])
+    run.cov["trusted_base"] += ["harness/c20.py (generator, adapter, canonicalisation)", "pandas semantics re-specified in Model/Windows.v", "harness/translate_windows.py (ast, fail-closed: day arithmetic, slices, comparison operators, max_days guards, boundary lookup, blanking, empty-selection errors of transform.py) tied by C20_source_facts_are_the_modelled_ones"]
+    # step 0: translator (semantics-bearing sites of the two functions and their warning helpers, regenerated every run)
+    import translate_windows
+    gen_ok = True
+    try:
+        ex = translate_windows.extract()
+        run.write_generated(translate_windows.OUT, translate_windows.render(ex))
+        run.cov["source_facts"] = ex
+    except translate_windows.TranslatorError as e:
+        gen_ok = False
+        run.proof_ok = False
+        run.proof_log += "translator failed (fail-closed): %s" % e
+        run.log("TRANSLATOR FAILED: %s" % e)
+    if gen_ok:
+        run.check_proofs("Properties/C20.v", ["Proofs/WindowsProofs.v", "Proofs/WindowsSrcProofs.v"], generated=["Generated/WindowsGen.v"])
     run.ensure_models(["Model/WindowsRun.v", "Model/CasesLib.v"])
     items = []
     if run.replay:
